@@ -32,7 +32,18 @@ STATEMENT_STATUS: Dict[str, str] = {
     "C13_fuel_get_widths": "proved: work <= 65536 per element of the W array + lengths of the copied arrays (MAX_CID regenerated; round 1: proved counter-example, fixed in the repo)",
     "C13_fuel_resolve_all": "proved: recursion depth <= (objects + 1) * (deepest nesting + 2) + nesting of the value + 2 for every graph",
     "C13_family_resolve_all": "proved",
-    "parser, filters, fonts/CMaps, interpreter, layout, converters, encryption": "not modelled: fault enumeration only (search, not proof)",
+    "C13_calls_resolve1": "proved (round 6): getobj calls of resolve1 <= distinct object numbers + 1; the calls of the implementation are counted and compared",
+    "C13_work_xref_chain": "proved (round 6): sections loaded by read_xref_from <= sections of the file (each at most once)",
+    "C13_bound_rldecode": "proved (round 6): every payload - output <= 128 * input bytes; errors RuntimeError/StopIteration are in the regenerated _DECODE_ERRORS",
+    "C13_bound_asciihexdecode": "proved (round 6): every payload - 2 * output <= input + 1; only binascii.Error",
+    "C13_bound_ascii85decode": "proved (round 6): every payload - output <= 4 * input + 16; only ValueError",
+    "C13_bound_lzwdecode": "proved (round 6): every payload - output <= (8n+1)(8n+2); only IndexError",
+    "C13_resolve_all_calls_cex": "proved counter-example (round 6): total getobj calls of resolve_all are not bounded by the input size - 2047 calls on 10 objects k: [k+1 0 R k+1 0 R], 4095 on 11 (measured alike on the implementation); only the depth bound C13_fuel_resolve_all holds; outside the single-fault domain, recorded as an observation",
+    "C13_numtree_guard_present": "proved (round 6), presence only: NumberTree._parse tests/grows/hands on its visited set incl. the indirect /Kids array (regenerated); the walk itself is not modelled",
+    "C13_bound_predictors": "proved (round 6): PNG and TIFF predictors on arbitrary Colors/Columns/BitsPerComponent and data - output <= input",
+    "C13_family_stream_decode": "proved (round 6): PDFStream.decode (model of C03, whole chain with predictors) returns data or raises a PDFException; CCITTFax is out of that model",
+    "PS/PDF parser, object streams, fonts/CMaps/Type1, content interpreter, layout, converters, security handlers, CCITT/Flate internals":
+        "not modelled here: fault enumeration only (search, not proof)",
 }
 
 # (class, exception, innermost function, fault kind, note)
@@ -140,6 +151,7 @@ def fragment() -> Dict[str, Any]:
 
 FIXED: List[str] = [
     "fixed: property=C13 aa4d991 work budget: utils.Plane.add enumerated every grid cell of text scaled to astronomic coordinates (form /Matrix 1e30 with all_texts, or a huge cm in a content stream); Plane now bounds the grid work per operation (fix by the Plane/C20 owner)",
+    "fixed: property=C13 0e01a8b number tree (PageLabels) whose directly written intermediate node names the indirect /Kids array it sits in as its own /Kids: RecursionError in NumberTree._parse (the cycle passes through no node reference)",
     "fixed: property=C13 b008bbf stream whose /Length refers to the stream itself: RecursionError in getobj",
     "fixed: property=C13 9e1c212 negative or oversized /Length: wrong data / OverflowError",
     "fixed: property=C13 be941ec inline image with /F that is neither name nor non-empty array: TypeError/IndexError/KeyError",
